@@ -184,6 +184,39 @@ func lexSQL(s string) ([]sqlTok, error) {
 	return out, nil
 }
 
+// likeDecode reads a LIKE pattern with PostgreSQL's rules (default escape character backslash): shape is the pattern
+// with every maximal run of literal characters written as v and wildcards kept ("v%", "%v", "%v%", "v_v", ...), lit is
+// the literal text (runs joined); ok is false when the pattern ends in a lone escape character.
+func likeDecode(p string) (shape, lit string, ok bool) {
+	var sb, lb strings.Builder
+	inLit := false
+	for i := 0; i < len(p); i++ {
+		c := p[i]
+		switch {
+		case c == '\\':
+			if i+1 >= len(p) {
+				return "", "", false
+			}
+			i++
+			lb.WriteByte(p[i])
+			if !inLit {
+				sb.WriteByte('v')
+				inLit = true
+			}
+		case c == '%' || c == '_':
+			sb.WriteByte(c)
+			inLit = false
+		default:
+			lb.WriteByte(c)
+			if !inLit {
+				sb.WriteByte('v')
+				inLit = true
+			}
+		}
+	}
+	return sb.String(), lb.String(), true
+}
+
 // cypher string literal for value v (single quoted, backslash escapes)
 func cyString(v string) string {
 	r := strings.NewReplacer(`\`, `\\`, `'`, `\'`)
@@ -247,7 +280,10 @@ func TestVerifBoundedSQLText(t *testing.T) {
 		}
 	}
 	gen("", maxLen)
-	values = append(values, "x'; drop table node; --", `x\'; select 1; --`, `x"; select 1; --`, "a$$b", "$q$x$q$", "/* c */", "x' or '1'='1", "é'ü", "'' ''")
+	generated := len(values)
+	values = append(values, "x'; drop table node; --", `x\'; select 1; --`, `x"; select 1; --`, "a$$b", "$q$x$q$", "/* c */", "x' or '1'='1", "é'ü", "'' ''",
+		// backticks (a decoded name may itself begin and end with one), LIKE's own special characters
+		"`", "``", "`a`", "`a", "a`", "a`b", "`x``y`", "```", "%", "_", `\%`, `a\`, `\a`, `a\b`, "a%b_c", `%\`, `C:\Users\`)
 	type position struct {
 		name  string
 		query func(v string) (string, map[string]any)
@@ -299,7 +335,16 @@ func TestVerifBoundedSQLText(t *testing.T) {
 		}, "string"},
 		{"starts with", func(v string) (string, map[string]any) {
 			return "match (n) where n.name starts with " + cyString(v) + " return n", nil
-		}, "free"},
+		}, "like:v%"},
+		{"ends with", func(v string) (string, map[string]any) {
+			return "match (n) where n.name ends with " + cyString(v) + " return n", nil
+		}, "like:%v"},
+		{"contains", func(v string) (string, map[string]any) {
+			return "match (n) where n.name contains " + cyString(v) + " return n", nil
+		}, "like:%v%"},
+		{"starts with under not, second predicate", func(v string) (string, map[string]any) {
+			return "match (n) where n.a = 1 and not n.name starts with " + cyString(v) + " return n", nil
+		}, "like:v%"},
 	}
 	skeleton := func(toks []sqlTok) string {
 		var b strings.Builder
@@ -396,6 +441,30 @@ func TestVerifBoundedSQLText(t *testing.T) {
 				if pos.want == "free" {
 					continue
 				}
+				if strings.HasPrefix(pos.want, "like:") {
+					// the operand travels as a LIKE pattern: read with LIKE's own rules (backslash makes the next
+					// character literal, % and _ are wildcards) one string token must be exactly the literal text v with
+					// the wildcard affixes of the operator, and nothing else may be a wildcard
+					want := strings.TrimPrefix(pos.want, "like:")
+					ok, seen := false, []string{}
+					for _, tk := range toks {
+						if tk.kind != "string" {
+							continue
+						}
+						if shape, lit, lok := likeDecode(tk.text); lok {
+							seen = append(seen, fmt.Sprintf("%q reads as %s with literal text %q", tk.text, shape, lit))
+							if shape == want && lit == v {
+								ok = true
+							}
+						} else {
+							seen = append(seen, fmt.Sprintf("%q is not a well-formed LIKE pattern (escape character at the end)", tk.text))
+						}
+					}
+					if !ok {
+						report(class, pos.name, "value %q is not matched literally by the LIKE pattern PostgreSQL reads (wanted the shape %s around exactly that text): %s; %s", v, want, strings.Join(seen, "; "), sql)
+					}
+					continue
+				}
 				found := false
 				for _, tk := range toks {
 					if (pos.want == "string" && tk.kind == "string" || pos.want == "ident" && tk.kind == "qident") && tk.text == v {
@@ -436,7 +505,7 @@ func TestVerifBoundedSQLText(t *testing.T) {
 	phase("parameter types", func() { x.paramSweep("param-types") })
 	cases += x.cases
 
-	res := map[string]any{"name": "sqltext", "bound": fmt.Sprintf("all strings up to length %d over %d hostile characters + %d crafted, %d positions; + long values (%d), long lists (sizes 1,2,16,17,18,40), whitespace values (%d) in traversal fragments, parameter Go types (%d)", maxLen, len(alphabet), 9, len(positions), len(longValues), len(xWhitespaceValues(maxLen)), len(xParamValues())), "cases": cases, "per_position": perPosition, "exhaustive": true, "failures": failures, "known_deviation_hits": knownHits}
+	res := map[string]any{"name": "sqltext", "bound": fmt.Sprintf("all strings up to length %d over %d hostile characters + %d crafted, %d positions; + long values (%d), long lists (sizes 1,2,16,17,18,40), whitespace values (%d) in traversal fragments, parameter Go types (%d)", maxLen, len(alphabet), len(values)-generated, len(positions), len(longValues), len(xWhitespaceValues(maxLen)), len(xParamValues())), "cases": cases, "per_position": perPosition, "exhaustive": true, "failures": failures, "known_deviation_hits": knownHits}
 	out, _ := json.Marshal(res)
 	fmt.Println("BOUNDED-RESULT " + string(out))
 	if len(failures) > 0 {
@@ -1027,6 +1096,7 @@ func xLongValues() []string {
 			out = append(out, strings.Repeat("é", n)+string(c)+"aaaa"+string(c))
 		}
 	}
+	out = append(out, xVeryLongValues()...)
 	return out
 }
 
@@ -1044,6 +1114,19 @@ func xLongFragmentValues() []string {
 				b[p] = c
 			}
 			out = append(out, string(b))
+		}
+	}
+	out = append(out, xVeryLongValues()...)
+	return out
+}
+
+// xVeryLongValues: values of 2100 and 4200 bytes (beyond any buffer or size threshold of a few KiB) that end in a quote
+// character, a dollar quote or a backslash followed by more text.
+func xVeryLongValues() []string {
+	var out []string
+	for _, l := range []int{2100, 4200} {
+		for _, mark := range []string{"$$", "'", "$q$", "$$; drop table node; --", `\`, `"`} {
+			out = append(out, strings.Repeat("a", l)+mark+"b"+mark)
 		}
 	}
 	return out
